@@ -36,7 +36,7 @@ uint16_t W(const std::string& form, const std::vector<long>& v) {
 
 // ---- program AST ---------------------------------------------------------------------------------------------------------
 struct Item {
-    enum Kind { Instr, Rep, Bkrep } kind = Instr;
+    enum Kind { Instr, Rep, Bkrep, SaveRestore } kind = Instr; // SaveRestore: every active loop frame saved to the stack and restored
     std::vector<uint16_t> words; // Instr: the instruction; Rep: the single repeated one-word instruction
     unsigned count = 0;          // loops: N (body runs N+1 times)
     unsigned source = 0;         // 0 immediate, 1 register (via `Register` operand), 2 r6
@@ -92,6 +92,8 @@ uint64_t dyn_count(const std::vector<Item>& b) {
     for (auto& it : b) {
         if (it.kind == Item::Instr)
             n += 1;
+        else if (it.kind == Item::SaveRestore)
+            n += 8;
         else if (it.kind == Item::Rep)
             n += (uint64_t)it.count + 1;
         else
@@ -106,7 +108,13 @@ std::vector<Item> gen_block(vf::Stream& s, unsigned depth, uint64_t budget, bool
     for (unsigned i = 0; i < len; ++i) {
         unsigned r = (unsigned)s.below(10);
         bool last = i + 1 == len;
-        if (r < 2 && depth < 4 && budget >= 4 && !(last && !top)) {
+        if (r == 9 && depth >= 1 && !last && s.chance(1, 2)) {
+            // bkrepsto [sp] for every active frame, then bkreprst [sp] for each: the identity on the loop state (what an
+            // interrupt routine that uses block repeats itself does); never the last item of a block
+            Item it;
+            it.kind = Item::SaveRestore;
+            b.push_back(it);
+        } else if (r < 2 && depth < 4 && budget >= 4 && !(last && !top)) {
             // nested block repeat; it must not be the last item of an enclosing block (two loops may not end together)
             Item it;
             it.kind = Item::Bkrep;
@@ -139,11 +147,19 @@ std::vector<Item> gen_block(vf::Stream& s, unsigned depth, uint64_t budget, bool
 }
 
 // code generation. `looped`: emit loop instructions; otherwise unroll
-void emit(const std::vector<Item>& b, bool looped, uint32_t base, std::vector<uint16_t>& out, uint64_t& instr) {
+void emit(const std::vector<Item>& b, bool looped, uint32_t base, std::vector<uint16_t>& out, uint64_t& instr, unsigned depth = 0) {
     for (auto& it : b) {
         if (it.kind == Item::Instr) {
             out.insert(out.end(), it.words.begin(), it.words.end());
             ++instr;
+        } else if (it.kind == Item::SaveRestore) {
+            if (looped) { // (the unrolled program has no loop state to save)
+                for (unsigned k = 0; k < depth; ++k)
+                    out.push_back(W("bkrepsto_memsp()", {}));
+                for (unsigned k = 0; k < depth; ++k)
+                    out.push_back(W("bkreprst_memsp()", {}));
+                instr += 2 * depth;
+            }
         } else if (it.kind == Item::Rep) {
             if (looped) {
                 if (it.source != 0) { // load the count register first
@@ -175,7 +191,7 @@ void emit(const std::vector<Item>& b, bool looped, uint32_t base, std::vector<ui
                 std::vector<uint16_t> body;
                 uint64_t once = 0;
                 uint32_t body_base = base + (uint32_t)out.size() + 2;
-                emit(it.body, true, body_base, body, once);
+                emit(it.body, true, body_base, body, once, depth + 1);
                 uint32_t end = body_base + (uint32_t)body.size() - 1; // address of the last word of the last instruction
                 if (it.source == 0) {
                     out.push_back(W("bkrep(Imm8,Address16)", {(long)it.count, -1}));
@@ -192,7 +208,7 @@ void emit(const std::vector<Item>& b, bool looped, uint32_t base, std::vector<ui
             } else {
                 for (uint64_t k = 0; k <= it.count; ++k) {
                     uint64_t once = 0;
-                    emit(it.body, false, base, out, once);
+                    emit(it.body, false, base, out, once, depth + 1);
                     instr += once;
                 }
             }
@@ -205,6 +221,8 @@ void describe(const std::vector<Item>& b, std::string& o, unsigned& depth, unsig
     for (auto& it : b) {
         if (it.kind == Item::Instr)
             o += it.words.size() == 2 ? "I2 " : "I ";
+        else if (it.kind == Item::SaveRestore)
+            o += "saverestore ";
         else if (it.kind == Item::Rep)
             o += "rep" + std::to_string(it.count) + (it.source ? "r " : " ");
         else {
@@ -325,6 +343,14 @@ vf::Result check_unroll(const Prog& p) {
     a[flat::F_repc] = b[flat::F_repc] = 0;
     if (!(a == b))
         return vf::Result::fail("C09:unroll:state", "looped and unrolled programs end in different registers (looped vs unrolled) " + flat::diff(a, b) + " for " + desc);
+    if (desc.find("saverestore") != std::string::npos) {
+        // the saved frames lie in the 16 words below the stack pointer: scratch, not part of the comparison
+        vf::klass("loop frames saved and restored inside nested blocks");
+        for (uint32_t a = 0x2F00 - 16; a < 0x2F00; ++a) {
+            rl.writes.erase(0x20000 + a);
+            ru.writes.erase(0x20000 + a);
+        }
+    }
     if (rl.writes != ru.writes)
         return vf::Result::fail("C09:unroll:memory", "looped and unrolled programs leave different memory (" + std::to_string(rl.writes.size()) + " vs " +
                                                          std::to_string(ru.writes.size()) + " cells written) for " + desc);
